@@ -244,12 +244,13 @@ class ApiSession:
                 except BaseException as e:  # noqa: BLE001
                     exc_b = e
                 api.emit("other_api", exc=type(exc_b).__name__ if exc_b else None, other_state=sorted(self.dump_api(b)), state=self.dump_api(a))
-                try:
-                    b.close()
-                except sched.Hang:
-                    raise
-                except BaseException:  # noqa: BLE001
-                    pass
+                if not spec.get("other_keep"):
+                    try:
+                        b.close()
+                    except sched.Hang:
+                        raise
+                    except BaseException:  # noqa: BLE001
+                        pass
             for op in spec.get("after", []):
                 if op[0] == "sleep":
                     api.sleep(op[1])
@@ -276,6 +277,32 @@ class ApiSession:
                     except BaseException as e:  # noqa: BLE001
                         exc = e
                     api.emit("ret", call=ev["seq"], op=["snap"], ctx="U0", exc=type(exc).__name__ if exc else None, msg=str(exc)[:200] if exc else None, res=res)
+                elif op[0] == "assign_enum":
+                    # a typed write through an accessor of the FIRST object: ["assign_enum", accessor, attribute, enum class, member]; recorded as the
+                    # caller's submission of the line it stands for (the connection-level calls underneath are not recorded separately)
+                    import ynca as _y
+                    member = getattr(getattr(_y, op[3]), op[4])
+                    obj = getattr(a, op[1], None)
+                    if obj is None:
+                        api.emit("accessor_gone", accessor=op[1])
+                        continue
+                    d = getattr(type(obj), op[2])
+                    sid = str(getattr(obj.id, "value", obj.id))
+                    ev = api.emit("call", op=["put", sid, d.name, member.value], ctx="U0")
+                    exc = None
+                    conns = [c for c in (a._connection, (b._connection if spec.get("other_device") else None)) if c is not None]
+                    for c in conns:
+                        c._verif_mute = True
+                    try:
+                        setattr(obj, op[2], member)
+                    except sched.Hang:
+                        raise
+                    except BaseException as e:  # noqa: BLE001
+                        exc = e
+                    finally:
+                        for c in conns:
+                            c._verif_mute = False
+                    api.emit("ret", call=ev["seq"], op=["put", sid, d.name, member.value], ctx="U0", exc=type(exc).__name__ if exc else None, msg=str(exc)[:200] if exc else None, res=None)
                 elif op[0] == "send_raw":
                     # the typed API's raw entry point: recorded as the caller's submission (the connection-level call underneath is not
                     # recorded separately, so that what was SUBMITTED is compared with the wire)
@@ -293,6 +320,13 @@ class ApiSession:
                         if a._connection is not None:
                             a._connection._verif_mute = False
                     api.emit("ret", call=ev["seq"], op=["raw", op[1]], ctx="U0", exc=type(exc).__name__ if exc else None, msg=str(exc)[:200] if exc else None, res=None)
+            if spec.get("other_device") and spec.get("other_keep"):
+                try:
+                    b.close()
+                except sched.Hang:
+                    raise
+                except BaseException:  # noqa: BLE001
+                    pass
             api.sleep(spec.get("final_wait", 6))
         elif kind == "conn_check":
             a = ynca.YncaApi("virtual://port", (lambda: (api.emit("disc_cb"), api.emit("disc_cb_ret"))) if spec.get("disconnect_cb", True) else None, spec.get("log_size", 0))
